@@ -909,6 +909,40 @@ def sub_case(ctx, k, cid):
                 check_density(ctx, net2, m2, rho, "__init__", cid)
     # (e) history
     history(ctx, rng, net, m, int(rng.integers(2, 6)), cid)
+    # (f) the similarity re-derived on the live object (winter months /
+    # maximum delay), with and without suppression of local links: the
+    # network must follow the rule for the object's *new* similarity
+    redo = None
+    if hasattr(net, "set_winter_only") and T >= 36:
+        redo = ("set_winter_only", True)
+    elif hasattr(net, "set_max_delay"):
+        redo = ("set_max_delay", int(extra["max_delay"]) + 1)
+    if redo is not None and not name.endswith(":directed"):
+        nl = bool(rng.random() < 0.6)
+        okq, _ = ctx.call(net.set_non_local, nl)
+        rkw = {}
+        if cname == "MutualInfoClimateNetwork":
+            # (dump=True stores the matrix in a file in the working
+            #  directory that later objects of the same size reload by
+            #  design; keep the cases independent of each other)
+            rkw["dump"] = False
+        okr, e = ctx.call(getattr(net, redo[0]), redo[1], **rkw)
+        ctx.evals()
+        if okq and okr:
+            okm, m3 = ctx.call(sub_model, net, name, nl)
+            if okm and np.all(np.isfinite(m3.S32)):
+                m3.theta = float(net.threshold())
+                vals = np.unique(np.asarray(m3.S32, dtype=np.float64))
+                # (the threshold kept from before must not sit on a value
+                #  of the new similarity)
+                if vals.size and np.min(np.abs(vals - m3.theta)) > \
+                        1e-3 * max(1e-12, abs(m3.theta)):
+                    ctx.count("similarity_rederived_states")
+                    check_state(ctx, net, m3, redo[0], cid,
+                                ["set_non_local", nl, redo[0], redo[1]])
+        elif not okr:
+            ctx.violation(f"{cname}.{redo[0]}:raises:{type(e).__name__}",
+                          {"exc": repr(e)}, cid)
 
 
 def run(ctx):
